@@ -202,7 +202,8 @@ def dw_uleb128(obj, data):
     data = pack(data)
     obj.x,blen = read_uleb128(data)
     obj.bytes += data[0:blen]
-    obj.operands = [obj.x]
+    # index (u32) or, for select, length of the vector of types:
+    obj.operands = [env.cst(obj.x,32)]
     obj.type = type_data_processing
     if obj.mnemonic=="select":
         obj.xdata = xdata_select
@@ -215,7 +216,7 @@ def dw_uleb128(obj, data):
     data = pack(data)
     obj.n,blen = read_uleb128(data)
     obj.bytes += data[0:blen]
-    obj.operands = [obj.n]
+    obj.operands = [env.cst(obj.n,64 if obj.mnemonic in ("i64","f64") else 32)]
     obj.action = "const"
     obj.type = type_data_processing
 
@@ -288,13 +289,16 @@ def dw_op_block(obj, data):
         raise InstructionError(obj)
     bt = data[0]
     if bt == 0x40:
-        obj.bt = 0x40
+        # empty block type
+        obj.bt = env.cst(0x40,8)
         obj.bytes += data[0:1]
     elif bt in env.valtype:
         obj.bt = env.valtype[bt]
         obj.bytes += data[0:1]
     else:
-        obj.bt,blen = read_sleb128(data)
+        # type index (s33)
+        bt,blen = read_sleb128(data)
+        obj.bt = env.cst(bt,33)
         obj.bytes += data[0:blen]
     obj.operands = [obj.bt]
     obj.type = type_control_flow
@@ -321,7 +325,8 @@ def dw_op_br(obj, data):
     data = pack(data)
     obj.l,blen = read_uleb128(data)
     obj.bytes += data[0:blen]
-    obj.operands = [obj.l]
+    # label index, or for br_table the length of the vector of labels:
+    obj.operands = [env.cst(obj.l,32)]
     obj.type = type_control_flow
     if obj.mnemonic=="br_table":
         obj.xdata = xdata_br_table
@@ -332,7 +337,7 @@ def xdata_call_indirect(obj,**kargs):
     off = 0
     n, sz = read_leb128(code,1,addr+off)
     obj.y = n
-    obj.operands.append(obj.y)
+    obj.operands.append(env.cst(obj.y,32))
     off += sz
     obj.bytes += code[addr:addr+off]
 
@@ -342,7 +347,8 @@ def dw_op_call(obj, data):
     data = pack(data)
     obj.x,blen = read_uleb128(data)
     obj.bytes += data[0:blen]
-    obj.operands = [obj.x]
+    # function index (call) or type index (call_indirect):
+    obj.operands = [env.cst(obj.x,32)]
     obj.type = type_control_flow
     if obj.mnemonic=="call_indirect":
         obj.xdata = xdata_call_indirect
